@@ -108,4 +108,14 @@ PROPS = {
         ],
         "assumptions": ["the generated gRPC handlers pass every call through the registered interceptor (grpc-go)", "HTTP gateway requests reach the same handlers through the Direct clients (extracted wiring)"],
     },
+    "C20": {
+        "translators": ["SqlTemplates"],
+        "trusted_base": [
+            "the translator harness/cmd/translate (go/ast): every fmt.Sprintf of psql/*.go and existing-sql/*.go with its format and argument source texts, every element stored into a slice the function strings.Join's, every gripql.ValidateGraphName call; a non-literal format is emitted as `unrecognised`, which fails C20_sites_accounted (fail closed); statement text built WITHOUT Sprintf is invisible to the translator and is caught only by the correspondence (every observed statement that depends on the client value must instantiate a regenerated template)",
+            "Model/Sql.v: the lexer (words, quoted identifiers, '..' and E'..' literals, numbers, -- and /* */ comments) is a model of how PostgreSQL tokenises with standard_conforming_strings=on; the classification lists schema_args / derived_at / carried_args (which argument expressions are configuration- or schema-derived) are hand-written and part of the trusted base",
+            "pq_quote models lib/pq QuoteLiteral; compared with the library on every hostile value on every run",
+            "the recording database/sql driver stands in for the server: what the server does with a statement is not modelled, only the statement text and its bound parameters",
+        ],
+        "assumptions": ["bound parameters ($1.. / ? placeholders) are transmitted out of band by database/sql drivers and cannot change statement structure", "table and column names taken from the driver configuration / the graphs table are trusted (operator-supplied, or derived from a validated graph name)"],
+    },
 }
